@@ -177,9 +177,10 @@ def stage_static(p):
         exp = e["members"]
         an = [refmap.norm_ident(f["name"]) for f in actual]
         en = [m["snake"] for m in exp]
-        e["shape_ok"] = an == en
-        e["names_ok"] = sorted(an) == sorted(en) and len(set(an)) == len(an)
-        if an != en:
+        agree = _names_agree(an, en)
+        e["shape_ok"] = agree
+        e["names_ok"] = (agree or sorted(an) == sorted(en)) and len(set(an)) == len(an)
+        if not agree:
             missing = [m for m in exp if m["snake"] not in an]
             extra = [f for f in actual if refmap.norm_ident(f["name"]) not in en]
             for m in missing:
@@ -197,6 +198,20 @@ def stage_static(p):
                 p.finding("member-not-pub", struct=e["xml"], field=f["name"])
     p.stats["structs_compared"] = compared
     p.stats["members_expected"] = sum(len(e["members"] or []) for e in p.expected)
+
+
+def _names_agree(an, en):
+    """Field names against expected member names, position by position. Two members of one type may have the same name (elements
+    of two namespaces, an attribute and an element): the first one is expected under that name, for a later one any field name
+    of its own will do — what it is called is nobody's promise, that all of them are there is."""
+    if len(an) != len(en) or len(set(an)) != len(an):
+        return False
+    seen = set()
+    for a, x in zip(an, en):
+        if x not in seen and a != x:
+            return False
+        seen.add(x)
+    return True
 
 
 def _after_nested(comp, m):
@@ -434,7 +449,13 @@ def check_generic(prop, tier, cfgs, n_quick, n_thorough, sigfun, stages, level="
             tp = Program(len(progs), gen_mini.occurrence_table(), root, "table:occurrence")
             tp.port = None
             progs.append(tp)
-        if prop in ("C02", "C03", "C04", "C08", "C09"):
+        if prop in ("C01", "C08", "C10"):
+            # many namespaces with one abbreviation: more than nine, and more than ninety-nine in the thorough tier
+            for n, ext in ((13, False), (24, True)) if tier == "quick" else ((13, False), (24, True), (112, True), (120, False)):
+                cp = Program(len(progs), gen_mini.many_colliding_namespaces(n, ext), root, f"many-colliding-namespaces:{n}{'+extension' if ext else ''}")
+                cp.port = None
+                progs.append(cp)
+        if prop in ("C01", "C02", "C03", "C04", "C08", "C09"):
             # declaration-order family: one fixed content in many declaration orders
             for label, ss in gen_mini.order_family_programs(rng(prop, "order-family"), {"C02": 32}.get(prop, 16) if tier == "quick" else 600):
                 op = Program(len(progs), ss, root, label)
@@ -745,8 +766,8 @@ def run_c14(tier):
             "evaluations": evaluated, "distinct_nontrivial": len(cells),
             "rule": "hand-built two-file WSDL program (vf/gen_c14.py) with (a) each keyword of the tier's list (quick: the 12 hardest + 6 seeded; "
                     "thorough: all strict, reserved and weak keywords of edition 2024) in each of 8 naming positions (local element, attribute, "
-                    "complex type, simple type, global element, operation, part, service) and (b) each of 16 payload classes in each of 15 text "
-                    "positions (enumeration value, numeric facet, length facet, simple/complex documentation, target / imported namespace URI, "
+                    "complex type, simple type, global element, operation, part, service) and (b) each of 16 payload classes in each of 19 text "
+                    "positions (enumeration value, numeric facet, length facet, the facets without a generated counterpart: pattern, whiteSpace, totalDigits, fractionDigits; simple/complex documentation, target / imported namespace URI, "
                     "endpoint address, soapAction; the four URI positions both as http:// and as urn: URIs, the namespace URIs also with the payload leading the last path segment). Oracles: syn parse, rustc compile, component still present (keywords), identifier set "
                     "equal to the payload-free baseline and marker absent from identifiers and non-string literals (payloads), string "
                     "literal value == original text for enumeration values and namespace URIs. Distinct = (kind, keyword|class, position) cells",
